@@ -10,19 +10,20 @@
 EXTENDS FormatProto, TLC, Json
 
 CONSTANT MaxRegs
-VARIABLES base, chk, regs, probe
-vars == <<base, chk, regs, probe>>
+VARIABLES base, chk, regs, probe, early
+vars == <<base, chk, regs, probe, early>>
 
 \* what the base checkers register (names probed only; the installation's full list is read by the harness)
 Builtins(b) ==
   CASE b = "default" -> [n \in {"email", "ipv4", "ipv6", "date", "regex"} |-> IF n = "regex" THEN "b:other" ELSE "b:" \o n]
-    [] b = "subset"  -> [n \in {"email"} |-> "b:email"]
+    [] b = "subset"  -> [n \in {"email", "ipv4", "date"} |-> "b:" \o n]
     [] b = "empty"   -> [n \in {} |-> "x"]
     [] b = "draft3"  -> [n \in {"email", "ip-address", "ipv6", "date", "regex"} |->
                            IF n = "ip-address" THEN "b:ipv4" ELSE IF n = "regex" THEN "b:other" ELSE "b:" \o n]
     [] b = "draft4"  -> [n \in {"email", "ipv4", "ipv6", "regex"} |-> IF n = "regex" THEN "b:other" ELSE "b:" \o n]
     [] b = "draft7"  -> [n \in {"email", "ipv4", "ipv6", "date", "regex"} |-> IF n = "regex" THEN "b:other" ELSE "b:" \o n]
 Bases == {"none", "default", "subset", "empty", "draft3", "draft4", "draft7"}
+\* (defined before Init)
 Customisable == {"default", "subset", "empty"}        \* fresh objects; the shared draft checkers are only probed
 
 Names == {"email", "ipv4", "ip-address", "date", "tag", "zzz", ""}
@@ -34,14 +35,17 @@ Insts == { [k |-> "null"], [k |-> "true"], [k |-> "int"], [k |-> "float"], [k |-
 Init == /\ base \in Bases
         /\ chk = (IF base = "none" THEN [none |-> TRUE, f |-> <<>>] ELSE [none |-> FALSE, f |-> Builtins(base)])
         /\ regs = <<>> /\ probe = [done |-> FALSE]
+        \* early: the validator is constructed with the checker BEFORE the registrations below are made on it (it holds
+        \* the checker object, so it follows them); otherwise after
+        /\ early \in (IF base \in Customisable THEN BOOLEAN ELSE {FALSE})
 Checks(name, beh) ==
   /\ base \in Customisable /\ ~probe.done /\ Len(regs) < MaxRegs
   /\ chk' = [chk EXCEPT !.f = [n \in DOMAIN chk.f \cup {name} |-> IF n = name THEN beh ELSE chk.f[n]]]
   /\ regs' = Append(regs, [name |-> name, beh |-> beh])
-  /\ UNCHANGED <<base, probe>>
+  /\ UNCHANGED <<base, probe, early>>
 Probe(name, x) == /\ ~probe.done
                   /\ probe' = [done |-> TRUE, name |-> name, x |-> x, out |-> Outcome(chk, name, x)]
-                  /\ UNCHANGED <<base, chk, regs>>
+                  /\ UNCHANGED <<base, chk, regs, early>>
 Next == \/ \E n \in {"tag", "email", ""}, b \in {"truthy", "falsy", "listed", "unlisted"} : Checks(n, b)
         \/ \E n \in Names, x \in Insts : Probe(n, x)
 Spec == Init /\ [][Next]_vars
@@ -49,5 +53,5 @@ Spec == Init /\ [][Next]_vars
 \* without a checker format has no effect; unknown names always pass; built-ins pass every non-string
 OffWithoutChecker == (probe.done /\ base = "none") => probe.out = "pass"
 UnknownPasses == (probe.done /\ ~chk.none /\ probe.name \notin DOMAIN chk.f) => probe.out = "pass"
-ExportInv == probe.done => PrintT(ToJson([base |-> base, regs |-> regs, name |-> probe.name, x |-> probe.x, out |-> probe.out]))
+ExportInv == probe.done => PrintT(ToJson([base |-> base, early |-> early, regs |-> regs, name |-> probe.name, x |-> probe.x, out |-> probe.out]))
 =============================================================================
